@@ -198,7 +198,13 @@ def decode_records(rng, quick):
         delta = d - epoch
         return delta.days, delta.seconds, delta.microseconds
     n = 200 if quick else 5000
+    import os
+    import time as _time
+    zones = ["UTC", "America/Argentina/Buenos_Aires", "Europe/London", "Asia/Tokyo", "XYZ+3:30"]
     for i in range(n):
+        # the decoders must not depend on the process' local timezone
+        os.environ["TZ"] = zones[i % len(zones)]
+        _time.tzset()
         days = rng.randint(14610, 47480)                 # 2010 .. 2100
         sec = rng.choice([0, 86399, rng.randint(0, 86399)])
         ms = rng.choice([0, 999, 1, 500, rng.randint(0, 999)])
@@ -218,6 +224,8 @@ def decode_records(rng, quick):
                 gd, gs, gu, utc = -1, -1, -1, False
             recs.append({"kind": "timestamp", "unit": unit, "days": days, "sec": sec, "frac": frac, "got_days": gd, "got_sec": gs,
                          "got_usec": gu, "got_utc": bool(utc), "raw": str(raw)})
+    os.environ["TZ"] = "UTC"
+    _time.tzset()
     for kind, fn, statuses in [("binance", bh.order_status_is_open, ["NEW", "PARTIALLY_FILLED", "FILLED", "CANCELED", "PENDING_CANCEL", "REJECTED", "EXPIRED"]),
                                ("binance_oco", bh.oco_order_status_is_open, ["EXECUTING", "ALL_DONE", "REJECT"]),
                                ("bitstamp", lambda s: bts_ex.OrderInfo(Pair("BTC", "USD"), bts_ex.OrderStatus({"id": 1, "status": s, "amount_remaining": "0"})).is_open,
@@ -320,10 +328,13 @@ def check(rep: Report, tier: str, seed: int, prop: str = None):
                     for ex in ("binance", "bitstamp"):
                         cases.append({"exchange": ex, "cid": v, "amount": str(Decimal(rng.randint(1, 10**6)).scaleb(rng.randint(-8, 2))),
                                       "price": str(Decimal(rng.randint(1, 10**6)).scaleb(rng.randint(-8, 2))),
-                                      "extra": rng.choice([{}, {}, {"selfTradePreventionMode": "EXPIRE_TAKER"}, {"note": v}])})
+                                      "extra": rng.choice([{}, {}, {"selfTradePreventionMode": "EXPIRE_TAKER"}, {"note": v},
+                                                           {"limit_price": Decimal("3.1E+4")}, {"trailingDelta": Decimal("8.5E-7")},
+                                                           {"icebergQty": Decimal(rng.randint(1, 999)).scaleb(rng.randint(-9, 4))}])})
                 for c in cases:
                     if c["exchange"] == "bitstamp" and "selfTradePreventionMode" in c["extra"]:
                         c["extra"] = {}
+                    c["extra"] = dict(c["extra"])
                 cases.append({"exchange": "binance", "cid": "fresh", "amount": "1", "price": "1", "throttle": True,
                               "only": ["spot.account", "spot.query_order", "spot.account"]})
                 cases.append({"exchange": "bitstamp", "cid": "fresh", "amount": "1", "price": "1", "throttle": True,
